@@ -79,7 +79,7 @@ void run_case(ByteSource& s, CaseInfo& ci) {
       Mat MA = toM(a, d);
       for (int k = 0; k < d; k++) if (MA.a[i][k] != cld(0, 0) || MA.a[j][k] != cld(0, 0)) touched = true;
       ci.nontrivial = fabs(sin(th)) > 1e-3 && touched;
-      SU_vector A = make_vec(a, d);
+      VecHolder hA; SU_vector& A = hA.make(a, d, s.tail_choose(8)); ci.label(std::string("storage-") + hA.kind);
       SU_vector R = A.Rotate(i, j, th, de);
       Mat RM = plane_rotation(d, i, j, (ld)th, (ld)de);
       Mat want = dagger(RM) * MA * RM;
@@ -110,7 +110,7 @@ void run_case(ByteSource& s, CaseInfo& ci) {
       Mat W = model_U(d, th, de);
       CHECK(maxabs(U - W) <= 64 * nrot * d * EPS, fmt("C06|GetTransformationMatrix|not-ordered-product|d=%d", d), "diff %.3Lg %s", maxabs(U - W), ci.sample.c_str());
       ci.ratio("transformation-matrix", (double)(maxabs(U - W) / (64 * nrot * d * EPS)));
-      SU_vector A = make_vec(a, d);
+      VecHolder hA; SU_vector& A = hA.make(a, d, s.tail_choose(8)); ci.label(std::string("storage-") + hA.kind);
       Mat MA = toM(a, d);
       ld tol = 64 * d * d * EPS * amax_of(a) * nrot;
       SU_vector B1 = A; B1.RotateToB1(p);
@@ -203,7 +203,7 @@ void run_case(ByteSource& s, CaseInfo& ci) {
       for (int i = 0; i < 6; i++) for (int j = 0; j < 6; j++) th[i][j] = de[i][j] = 0;
       int nsteps = 2 + (int)s.choose(10);
       std::vector<double> a = gen_dense(s, d);
-      SU_vector A = make_vec(a, d); Mat MA = toM(a, d);
+      VecHolder hA; SU_vector& A = hA.make(a, d, s.tail_choose(8)); ci.label(std::string("storage-") + hA.kind); Mat MA = toM(a, d);
       std::string hist; bool nta = false; int consumers = 0, sets_after_consumer = 0;
       int nrot = d * (d - 1) / 2;
       ld tol = 64 * d * d * EPS * amax_of(a) * nrot;
